@@ -142,6 +142,7 @@ type w6aItemInfo struct {
 	written   bool
 	writeSeq  int64 // event number when its write began
 	writeCall int
+	invokeAt  time.Duration // simulated time of the enqueue invocation
 }
 
 func w6aRun(s *simrt.Sim, script any, prop string) {
@@ -203,7 +204,41 @@ func w6aRun(s *simrt.Sim, script any, prop string) {
 		s.Event("write call=%d n=%d", call, len(its))
 		if call == sc.StallWrite {
 			s.Fault("transport_stall")
-			s.Sleep(time.Duration(sc.StallUs) * time.Microsecond)
+			d := time.Duration(sc.StallUs) * time.Microsecond
+			st0 := s.Stalls
+			s.Sleep(d / 2)
+			// Slow-consumer clause while the transport is stalled. Simulated time only
+			// advances when every goroutine is durably blocked (and no scheduler stall was
+			// injected meanwhile: s.Stalls unchanged), so every enqueue invoked at an EARLIER
+			// instant has completed its queue insertion and either returned or is blocked.
+			// The queue then holds exactly the invoked-but-not-handed-over items (this write
+			// is the only consumer and it is parked here). If that exceeds the limit, the
+			// enqueue that inserted last read a size at least as large (nothing was removed
+			// since) and must already have reported DisconnectSlow.
+			if sc.MaxQueueSize > 0 && s.Stalls == st0 && closeInvoke != 0 {
+				s.Probe("stalled_write_closed_meanwhile")
+			}
+			if sc.MaxQueueSize > 0 && s.Stalls == st0 && closeInvoke == 0 && !failed {
+				s.Probe("stalled_write_limit_checked")
+				now := s.Now()
+				pending, anySlow := 0, false
+				for _, in := range items {
+					if in.invoke != 0 && in.invokeAt < now && !in.written {
+						pending += in.size
+					}
+					if in.slow {
+						anySlow = true
+					}
+				}
+				if pending > sc.MaxQueueSize {
+					if !anySlow {
+						for _, pr := range []string{"C12", "C37"} {
+							s.Violate(pr, "slow-missed-while-stalled", "queue over the limit during a stalled write without DisconnectSlow", "%d bytes pending (limit %d) half way through a %v transport stall (timer mode %v), no enqueue has reported DisconnectSlow", pending, sc.MaxQueueSize, d, sc.TimerMode)
+						}
+					}
+				}
+			}
+			s.Sleep(d - d/2)
 		}
 		if call == sc.FailWrite {
 			s.Fault("transport_write_error")
@@ -281,6 +316,7 @@ func w6aRun(s *simrt.Sim, script any, prop string) {
 					inv := next()
 					for _, in := range infos {
 						in.invoke = inv
+						in.invokeAt = s.Now()
 					}
 					var d *Disconnect
 					if op.Kind == "enq" {
@@ -411,6 +447,7 @@ func w6aCheckSlow(s *simrt.Sim, sc *w6aScript, items map[uint64]*w6aItemInfo, cu
 	if sc.MaxQueueSize <= 0 {
 		if gotSlow {
 			s.Violate("C37", "slow-without-limit", "DisconnectSlow with MaxQueueSize 0", "enqueue returned slow although no limit configured")
+			s.Violate("C12", "slow-without-limit", "DisconnectSlow with MaxQueueSize 0", "enqueue returned slow although no limit configured")
 		}
 		return
 	}
@@ -423,16 +460,25 @@ func w6aCheckSlow(s *simrt.Sim, sc *w6aScript, items map[uint64]*w6aItemInfo, cu
 	// upper bound of queued bytes when Size() was read: everything whose enqueue began
 	// before we returned and whose write had not begun before we were invoked
 	upper := curBytes
-	// lower bound: everything whose enqueue had returned before we were invoked and that
-	// was certainly still queued when we returned: not written at all, or written by a
-	// call later than the first call that began after we were invoked (that first call's
-	// batch may already have been taken out of the queue before Size() was read).
-	lower := curBytes
-	firstAfter := len(callBegin)
-	for i, b := range callBegin {
-		if b > inv {
-			firstAfter = i
-			break
+	// lower bound: what was certainly still queued when Size() was read (at the latest when
+	// we returned). An item leaves the queue when the flusher takes its batch, which is some
+	// time BEFORE the write call that carries it begins, but never before the previous write
+	// call began (one flusher, batches are taken one after the other). So an item is
+	// certainly still queued at our return iff it was never handed to the transport, or the
+	// write call before its own began after we returned. (The earlier rule "written by a
+	// call later than the first call that began after we were invoked" was unsound: a
+	// preempted enqueuer can be overtaken by several complete write calls between its Add
+	// and its Size(); found as soon as this clause was actually claimed, seed 1 run 44227.)
+	stillQueued := func(in *w6aItemInfo) bool {
+		if !in.written {
+			return true
+		}
+		return in.writeCall >= 1 && in.writeCall-1 < len(callBegin) && callBegin[in.writeCall-1] > ret
+	}
+	lower := 0
+	for _, in := range cur {
+		if stillQueued(in) {
+			lower += in.size
 		}
 	}
 	for _, in := range items {
@@ -442,15 +488,17 @@ func w6aCheckSlow(s *simrt.Sim, sc *w6aScript, items map[uint64]*w6aItemInfo, cu
 		if in.invoke < ret && !(in.written && in.writeSeq < inv) {
 			upper += in.size
 		}
-		if in.accepted && in.ret != 0 && in.ret < inv && (!in.written || in.writeCall > firstAfter) {
+		if in.accepted && in.ret != 0 && in.ret < inv && stillQueued(in) {
 			lower += in.size
 		}
 	}
 	if gotSlow && upper <= sc.MaxQueueSize {
 		s.Violate("C37", "slow-too-early", "DisconnectSlow below the limit", "enqueue returned slow but at most %d bytes could be pending (limit %d)", upper, sc.MaxQueueSize)
+		s.Violate("C12", "slow-too-early", "DisconnectSlow below the limit", "enqueue returned slow but at most %d bytes could be pending (limit %d)", upper, sc.MaxQueueSize)
 	}
 	if !gotSlow && lower > sc.MaxQueueSize && (closeInvoke == 0 || ret < closeInvoke) {
 		s.Violate("C37", "slow-missed", "limit exceeded without DisconnectSlow", "enqueue accepted although at least %d bytes were pending (limit %d)", lower, sc.MaxQueueSize)
+		s.Violate("C12", "slow-missed", "limit exceeded without DisconnectSlow", "enqueue accepted although at least %d bytes were pending (limit %d)", lower, sc.MaxQueueSize)
 	}
 	if !gotSlow && lower > sc.MaxQueueSize/2 {
 		s.Probe("near_limit")
@@ -474,4 +522,5 @@ func init() {
 		},
 	})
 	simrt.Claim("C12", "w6a", 10)
+	simrt.Claim("C37", "w6a", 3) // slow-consumer clause on the writer itself (W1 weighs 10)
 }
